@@ -18,12 +18,12 @@ import (
 
 func init() { register("C17", c17) }
 
-type mat6 [6]core.Poly // A B C D E F  (x' = A x + C y + E ; y' = B x + D y + F)
+type mat6 [6]core.RatP // A B C D E F  (x' = A x + C y + E ; y' = B x + D y + F)
 
 func symMat(prefix string) mat6 {
 	var m mat6
 	for i, n := range []string{"A", "B", "C", "D", "E", "F"} {
-		m[i] = core.SymP(prefix + "." + n)
+		m[i] = core.SymR(prefix + "." + n)
 	}
 	return m
 }
@@ -43,7 +43,7 @@ func specMul(t, u mat6) mat6 {
 func (m mat6) av() core.AV {
 	a := core.Agg{}
 	for _, p := range m {
-		a.E = append(a.E, p)
+		a.E = append(a.E, core.FromRat(p))
 	}
 	return a
 }
@@ -55,7 +55,7 @@ func matOf(v core.AV) (mat6, bool) {
 		return m, false
 	}
 	for i, e := range a.E {
-		p, ok := e.(core.Poly)
+		p, ok := core.ToRat(e)
 		if !ok {
 			return m, false
 		}
@@ -81,8 +81,8 @@ func (m mat6) String() string {
 	return strings.Join(parts, " ")
 }
 
-func zero() core.Poly { return core.Num(0) }
-func one() core.Poly  { return core.Num(1) }
+func zero() core.RatP { return core.NumR(0) }
+func one() core.RatP  { return core.NumR(1) }
 
 func c17(c *core.Check) {
 	_ = c
@@ -102,12 +102,26 @@ func c17(c *core.Check) {
 	c17Angles(c, r4)
 }
 
-func foldMat(p *core.Prog, fn *ssa.Function, args []core.AV) ([]core.AV, *core.Folder, error) {
+// foldMat folds fn; comparisons of a single input symbol with zero are decided by zeroSyms (the symbol is then
+// also substituted by 0 in the arguments by the caller) and recorded in compared; any other comparison with zero
+// (the determinant) is assumed to be "non-zero".
+func foldMat(p *core.Prog, fn *ssa.Function, args []core.AV, zeroSyms map[string]bool, compared map[string]bool) ([]core.AV, *core.Folder, error) {
 	f := &core.Folder{MaxDepth: 5}
 	f.Cmp = func(op token.Token, x, y core.AV) (bool, bool) {
-		// det == 0 : assume invertible
-		if py, ok := y.(core.Poly); ok {
+		px, okx := x.(core.Poly)
+		py, oky := y.(core.Poly)
+		if okx && oky {
 			if c, isc := py.IsConst(); isc && c.Sign() == 0 {
+				if len(px.T) == 1 {
+					for name, coef := range px.T {
+						if name != "" && coef.Cmp(big.NewRat(1, 1)) == 0 && !strings.ContainsAny(name, "(\x1f") {
+							compared[name] = true
+							if zeroSyms[name] {
+								return op == token.EQL, true
+							}
+						}
+					}
+				}
 				return op == token.NEQ, true
 			}
 		}
@@ -134,11 +148,24 @@ func c17Matrix(c *core.Check, r *core.Rule) {
 		r.Anchor("matrix.Transform fields A,B,C,D,E,F (got " + names + ")")
 		return
 	}
-	M, U, V := symMat("T"), symMat("U"), symMat("V")
-	tan := func(s string) core.Poly { return core.SymP("tan(" + s + ")") }
-	cos := func(s string) core.Poly { return core.SymP("cos(" + s + ")") }
-	sin := func(s string) core.Poly { return core.SymP("sin(" + s + ")") }
-	sym := core.SymP
+	runAll := func(zeroSet map[string]bool, label string, only map[string]bool) map[string]map[string]bool {
+	comparedBy := map[string]map[string]bool{}
+	z := func(m mat6) mat6 {
+		for i, n := range []string{"A", "B", "C", "D", "E", "F"} {
+			for pre := range map[string]bool{"T": true, "U": true, "V": true} {
+				if m[i].Equal(core.SymR(pre+"."+n)) && zeroSet[pre+"."+n] {
+					m[i] = core.NumR(0)
+				}
+			}
+		}
+		return m
+	}
+	M, U, V := z(symMat("T")), z(symMat("U")), z(symMat("V"))
+	tan := func(s string) core.RatP { return core.SymR("tan(" + s + ")") }
+	cos := func(s string) core.RatP { return core.SymR("cos(" + s + ")") }
+	sin := func(s string) core.RatP { return core.SymR("sin(" + s + ")") }
+	sym := core.SymR
+	symA := func(n string) core.AV { return core.SymP(n) }
 
 	specTranslation := mat6{one(), zero(), zero(), one(), sym("tx"), sym("ty")}
 	specScaling := mat6{sym("sx"), zero(), zero(), sym("sy"), zero(), zero()}
@@ -177,42 +204,41 @@ func c17Matrix(c *core.Check, r *core.Rule) {
 	fnOf := func(name string) *ssa.Function { return p.Fn("matrix", name) }
 	meth := func(name string) *ssa.Function { return p.Method("matrix", "Transform", name) }
 	det := M[0].Mul(M[3]).Add(M[1].Mul(M[2]).Neg())
-	inv := core.SymP("inv(" + det.String() + ")")
 	// inverse of an affine map: A^-1 = adj/det ; translation = -A^-1 (E,F)
-	iA, iB, iC, iD := M[3].Mul(inv), M[1].Neg().Mul(inv), M[2].Neg().Mul(inv), M[0].Mul(inv)
+	iA, iB, iC, iD := M[3].Div(det), M[1].Neg().Div(det), M[2].Neg().Div(det), M[0].Div(det)
 	specInv := mat6{iA, iB, iC, iD,
 		iA.Mul(M[4]).Add(iC.Mul(M[5])).Neg(),
 		iB.Mul(M[4]).Add(iD.Mul(M[5])).Neg()}
 
 	cases := []tcase{
 		{"Identity", fnOf("Identity"), nil, expectMat(mat6{one(), zero(), zero(), one(), zero(), zero()})},
-		{"New", fnOf("New"), []core.AV{sym("a"), sym("b"), sym("c"), sym("d"), sym("e"), sym("f")}, expectMat(mat6{sym("a"), sym("b"), sym("c"), sym("d"), sym("e"), sym("f")})},
-		{"Translation", fnOf("Translation"), []core.AV{sym("tx"), sym("ty")}, expectMat(specTranslation)},
-		{"Scaling", fnOf("Scaling"), []core.AV{sym("sx"), sym("sy")}, expectMat(specScaling)},
-		{"Rotation", fnOf("Rotation"), []core.AV{sym("a")}, expectMat(specRotation)},
-		{"Skew", fnOf("Skew"), []core.AV{sym("ax"), sym("ay")}, expectMat(specSkew)},
+		{"New", fnOf("New"), []core.AV{symA("a"), symA("b"), symA("c"), symA("d"), symA("e"), symA("f")}, expectMat(mat6{sym("a"), sym("b"), sym("c"), sym("d"), sym("e"), sym("f")})},
+		{"Translation", fnOf("Translation"), []core.AV{symA("tx"), symA("ty")}, expectMat(specTranslation)},
+		{"Scaling", fnOf("Scaling"), []core.AV{symA("sx"), symA("sy")}, expectMat(specScaling)},
+		{"Rotation", fnOf("Rotation"), []core.AV{symA("a")}, expectMat(specRotation)},
+		{"Skew", fnOf("Skew"), []core.AV{symA("ax"), symA("ay")}, expectMat(specSkew)},
 		{"Mul", fnOf("Mul"), []core.AV{M.av(), U.av()}, expectMat(specMul(M, U))},
 		{"Mul3", fnOf("Mul3"), []core.AV{M.av(), U.av(), V.av()}, expectMat(specMul(M, specMul(U, V)))},
 		{"Transform.Determinant", meth("Determinant"), []core.AV{M.av()}, func(res []core.AV, _ []core.AV) (bool, string, string) {
-			got, ok := res[0].(core.Poly)
+			got, ok := core.ToRat(res[0])
 			return ok && got.Equal(det), core.AVString(res[0]), "specification: " + det.String()
 		}},
-		{"Transform.Apply", meth("Apply"), []core.AV{M.av(), sym("x"), sym("y")}, func(res []core.AV, _ []core.AV) (bool, string, string) {
+		{"Transform.Apply", meth("Apply"), []core.AV{M.av(), symA("x"), symA("y")}, func(res []core.AV, _ []core.AV) (bool, string, string) {
 			if len(res) != 2 {
 				return false, "", "two results expected"
 			}
-			gx, ok1 := res[0].(core.Poly)
-			gy, ok2 := res[1].(core.Poly)
+			gx, ok1 := core.ToRat(res[0])
+			gy, ok2 := core.ToRat(res[1])
 			wx := M[0].Mul(sym("x")).Add(M[2].Mul(sym("y"))).Add(M[4])
 			wy := M[1].Mul(sym("x")).Add(M[3].Mul(sym("y"))).Add(M[5])
 			return ok1 && ok2 && gx.Equal(wx) && gy.Equal(wy), core.AVString(res[0]) + " ; " + core.AVString(res[1]), "specification: " + wx.String() + " ; " + wy.String()
 		}},
 		{"(*Transform).LeftMultBy", meth("LeftMultBy"), []core.AV{ptr(M), U.av()}, expectInPlace(specMul(U, M))},
 		{"(*Transform).RightMultBy", meth("RightMultBy"), []core.AV{ptr(M), U.av()}, expectInPlace(specMul(M, U))},
-		{"(*Transform).Translate", meth("Translate"), []core.AV{ptr(M), sym("tx"), sym("ty")}, expectInPlace(specMul(M, specTranslation))},
-		{"(*Transform).Scale", meth("Scale"), []core.AV{ptr(M), sym("sx"), sym("sy")}, expectInPlace(specMul(M, specScaling))},
-		{"(*Transform).Rotate", meth("Rotate"), []core.AV{ptr(M), sym("a")}, expectInPlace(specMul(M, specRotation))},
-		{"(*Transform).Skew", meth("Skew"), []core.AV{ptr(M), sym("ax"), sym("ay")}, expectInPlace(specMul(M, specSkew))},
+		{"(*Transform).Translate", meth("Translate"), []core.AV{ptr(M), symA("tx"), symA("ty")}, expectInPlace(specMul(M, specTranslation))},
+		{"(*Transform).Scale", meth("Scale"), []core.AV{ptr(M), symA("sx"), symA("sy")}, expectInPlace(specMul(M, specScaling))},
+		{"(*Transform).Rotate", meth("Rotate"), []core.AV{ptr(M), symA("a")}, expectInPlace(specMul(M, specRotation))},
+		{"(*Transform).Skew", meth("Skew"), []core.AV{ptr(M), symA("ax"), symA("ay")}, expectInPlace(specMul(M, specSkew))},
 		{"(*Transform).Invert", meth("Invert"), []core.AV{ptr(M)}, expectInPlace(specInv)},
 	}
 	for _, tc := range cases {
@@ -220,14 +246,63 @@ func c17Matrix(c *core.Check, r *core.Rule) {
 			r.Anchor("matrix." + tc.name)
 			continue
 		}
-		res, _, err := foldMat(p, tc.fn, tc.args)
+		if only != nil && !only[tc.name] {
+			continue
+		}
+		compared := map[string]bool{}
+		res, _, err := foldMat(p, tc.fn, tc.args, zeroSet, compared)
+		comparedBy[tc.name] = compared
 		pos := p.Pos(tc.fn.Pos())
 		if err != nil {
-			r.Unknown("matrix."+tc.name, pos, err.Error())
+			r.Unknown("matrix."+tc.name+label, pos, err.Error())
 			continue
 		}
 		ok, got, want := tc.expect(res, tc.args)
-		r.Cond(ok, "matrix."+tc.name, pos, "normal form "+got, "normal form "+got+" ; "+want)
+		r.Cond(ok, "matrix."+tc.name+label, pos, "normal form "+got, "normal form "+got+" ; "+want)
+	}
+
+	return comparedBy
+	}
+	base := runAll(map[string]bool{}, "", nil)
+	// case split: a routine that tests an input entry against zero (a fast path) is folded again with that entry
+	// being zero; entries first tested inside such a branch are split in turn (bounded).
+	for name := range base {
+		type state struct{ zero map[string]bool }
+		seen := map[string]bool{"": true}
+		work := []state{}
+		enqueue := func(zero map[string]bool, cmp map[string]bool) {
+			for sname := range cmp {
+				if zero[sname] {
+					continue
+				}
+				nz := map[string]bool{sname: true}
+				for k := range zero {
+					nz[k] = true
+				}
+				var parts []string
+				for k := range nz {
+					parts = append(parts, k)
+				}
+				sort.Strings(parts)
+				key := strings.Join(parts, ",")
+				if !seen[key] {
+					seen[key] = true
+					work = append(work, state{nz})
+				}
+			}
+		}
+		enqueue(map[string]bool{}, base[name])
+		for n := 0; len(work) > 0 && n < 64; n++ {
+			st := work[0]
+			work = work[1:]
+			var parts []string
+			for k := range st.zero {
+				parts = append(parts, k+"=0")
+			}
+			sort.Strings(parts)
+			res := runAll(st.zero, " ["+strings.Join(parts, ",")+"]", map[string]bool{name: true})
+			enqueue(st.zero, res[name])
+		}
 	}
 }
 
@@ -544,6 +619,44 @@ func c17CSS(c *core.Check, r *core.Rule) {
 		// the final translate is after the loop: it cannot reach the RightMultBy call
 		notInLoop := !core.Reaches(trCall, func(i ssa.Instruction) bool { return i == ssa.Instruction(rmbCall) })
 		r.Cond(okInit, "matrix starts as the translation by the transform origin", p.Pos(newCall.Pos()), "mt.New(1,0,0,1,originX,originY)", "initial matrix is not the translation by the origin")
+		// the origin is the border-box corner plus the transform-origin resolved against the border box
+		fromCall := func(v ssa.Value, name string) bool {
+			found := false
+			var walk func(v ssa.Value, d int)
+			walk = func(v ssa.Value, d int) {
+				if d > 6 || found {
+					return
+				}
+				switch x := v.(type) {
+				case *ssa.Call:
+					if callsNamed(x, name) {
+						found = true
+						return
+					}
+					for _, a := range x.Call.Args {
+						walk(a, d+1)
+					}
+					if x.Call.IsInvoke() {
+						walk(x.Call.Value, d+1)
+					}
+				case *ssa.MakeInterface:
+					walk(x.X, d+1)
+				case *ssa.BinOp:
+					walk(x.X, d+1)
+					walk(x.Y, d+1)
+				case *ssa.Convert:
+					walk(x.X, d+1)
+				case *ssa.ChangeType:
+					walk(x.X, d+1)
+				case *ssa.Extract:
+					walk(x.Tuple, d+1)
+				}
+			}
+			walk(v, 0)
+			return found
+		}
+		r.Cond(fromCall(a[4], "BorderBoxX") && fromCall(a[4], "BorderWidth") && fromCall(a[5], "BorderBoxY") && fromCall(a[5], "BorderHeight"), "transform origin is measured from the border box", p.Pos(newCall.Pos()),
+			"originX = BorderBoxX() + origin resolved against BorderWidth(); originY likewise with BorderBoxY()/BorderHeight()", "the origin is not the border-box corner plus the transform-origin resolved against the border box (CSS Transforms: the reference box is the border box)")
 		r.Cond(okFinal && notInLoop, "matrix ends with the translation by the negated origin", p.Pos(trCall.Pos()), "Translate(-originX,-originY) after the loop", "final Translate does not negate the same origin values after the loop")
 	}
 }
@@ -665,8 +778,9 @@ func c17SVG(c *core.Check, r *core.Rule) {
 	cosS := func(a core.Poly) core.Poly { return core.SymP("cos(" + a.String() + ")") }
 	sinS := func(a core.Poly) core.Poly { return core.SymP("sin(" + a.String() + ")") }
 	a := func(i int) core.Poly { return core.SymP(fmt.Sprintf("a%d", i)) }
-	rot := func(th core.Poly) mat6 { return mat6{cosS(th), sinS(th), sinS(th).Neg(), cosS(th), zero(), zero()} }
-	tr := func(x, y core.Poly) mat6 { return mat6{one(), zero(), zero(), one(), x, y} }
+	R := core.PolyR
+	rot := func(th core.Poly) mat6 { return mat6{R(cosS(th)), R(sinS(th)), R(sinS(th).Neg()), R(cosS(th)), zero(), zero()} }
+	tr := func(x, y core.Poly) mat6 { return mat6{one(), zero(), zero(), one(), R(x), R(y)} }
 	for _, kcase := range []string{"rotate", "rotateWithOrigin", "translate", "skew", "scale", "customMatrix"} {
 		kv, ok := kindVal[kcase]
 		if !ok {
@@ -728,11 +842,11 @@ func c17SVG(c *core.Check, r *core.Rule) {
 		case "translate":
 			want = specMul(M, tr(a(0), a(1)))
 		case "skew":
-			want, needsAngle = specMul(M, mat6{one(), tanS(th(1)), tanS(th(0)), one(), zero(), zero()}), true
+			want, needsAngle = specMul(M, mat6{one(), R(tanS(th(1))), R(tanS(th(0))), one(), zero(), zero()}), true
 		case "scale":
-			want = specMul(M, mat6{a(0), zero(), zero(), a(1), zero(), zero()})
+			want = specMul(M, mat6{R(a(0)), zero(), zero(), R(a(1)), zero(), zero()})
 		case "customMatrix":
-			want = specMul(M, mat6{a(0), a(1), a(2), a(3), a(4), a(5)})
+			want = specMul(M, mat6{R(a(0)), R(a(1)), R(a(2)), R(a(3)), R(a(4)), R(a(5))})
 		}
 		okM := gotM.equal(want)
 		if needsAngle {
